@@ -3,10 +3,20 @@ from . import rules_conc as conc
 from . import rules_effects as fx
 from . import rules_live as live
 from . import rules_flow as flow
+from . import rules_stale as stale
+from . import rules_must as must
 
 PROPERTIES = {
+    'C11': {
+        'rules': [must.rule_unlink_both, stale.rule_admit_live, stale.rule_stale_removal],
+        'explanation': 'Exactly-once is Rust ownership everywhere except the raw-pointer list, so the check is about that boundary: every '
+                       'removal from the map unlinks and frees both deque nodes of the entry, maintenance never creates a node for an entry '
+                       'that already left the map, and never removes by key alone.',
+        'decides': 'no removal path leaves a node (key clone, EntryInfo) behind; no ghost node is created',
+        'does_not_decide': 'live-object counts at quiescent points, release timing relative to the clock',
+    },
     'C10': {
-        'rules': [flow.rule_flow_unsync, flow.rule_flow_admit_sums_unsync, flow.rule_flow_sync],
+        'rules': [flow.rule_flow_unsync, flow.rule_flow_admit_sums_unsync, flow.rule_flow_sync, stale.rule_admit_live, stale.rule_stale_removal],
         'explanation': 'Per-path traces of every function that adds / removes / replaces a map entry: the final value written to each '
                        'counter is decomposed into a signed sum and must contain the removed entry\'s stored weight with sign - (and 1 with -), '
                        'the admitted candidate\'s weight with + (and 1), -old +new for updates, 0 after clear; accumulators are checked '
@@ -16,7 +26,7 @@ PROPERTIES = {
         'does_not_decide': 'the numeric equality itself (saturation, weigher determinism), quiescent multi-thread states',
     },
     'C01': {
-        'rules': [live.rule_guard_live_all],
+        'rules': [live.rule_guard_live_all, must.rule_must_invalidate, must.rule_must_insert, must.rule_auth_value],
         'explanation': 'Path-sensitive abstract interpretation of the 6 lookups (get / contains_key / Iter::next of both caches): on '
                        'every path that returns a hit, the entry that is returned was checked against ttl, tti and (sync) the '
                        'invalidate_all watermark with the exact comparison operators and operand roles.',
@@ -24,35 +34,36 @@ PROPERTIES = {
         'does_not_decide': 'HashMap/DashMap lookup correctness; that the latest insert wins under concurrency (C02)',
     },
     'C05': {
-        'rules': [live.rule_guard_live_ttl],
+        'rules': [live.rule_guard_live_ttl, must.rule_update_resets, must.rule_wo_node],
         'explanation': 'Every hit path of the 6 lookups establishes last_modified + time_to_live <= now == false (inclusive boundary) '
                        'on the returned entry with `now` read from the clock in the same call.',
         'decides': 'the inclusive ttl boundary test is applied by every lookup to the returned entry',
         'does_not_decide': 'clock monotonicity; DashMap guard atomicity between an update and a concurrent read',
     },
     'C06': {
-        'rules': [live.rule_guard_live_tti, fx.rule_pure_observers_ts],
+        'rules': [live.rule_guard_live_tti, fx.rule_pure_observers_ts, must.rule_update_resets],
         'explanation': 'Every hit path of the 6 lookups establishes last_accessed + time_to_idle <= now == false (inclusive) on the '
                        'returned entry; contains_key / iteration have no write effect on any timestamp store.',
         'decides': 'the inclusive tti boundary test is applied by every lookup; observers cannot extend the idle deadline',
         'does_not_decide': 'clock monotonicity; concurrent visibility',
     },
     'C07': {
-        'rules': [live.rule_guard_live_va],
+        'rules': [live.rule_guard_live_va, must.rule_must_invalidate, must.rule_auth_value, stale.rule_stale_ts, must.rule_unlink_both],
         'explanation': 'Every hit path of the 3 sync lookups establishes ts < valid_after == false (strict) for both timestamp stores of '
                        'the returned entry.',
         'decides': 'the watermark comparison is strict and applied by every sync lookup',
         'does_not_decide': 'per-schedule visibility between an invalidating thread and readers',
     },
     'C16': {
-        'rules': [live.rule_guard_live_all],
+        'rules': [live.rule_guard_live_all, must.rule_update_resets],
         'explanation': 'Both Iter::next implementations yield an item only on paths where the full liveness predicate of that very '
                        'item is false.',
         'decides': 'iteration never yields an expired / invalidated entry; the filter is exactly the liveness predicate',
         'does_not_decide': "DashMap's iteration guarantees under concurrent writers",
     },
     'C03': {
-        'rules': [live.rule_miss_reasons, flow.rule_flow_unsync, flow.rule_flow_admit_sums_unsync, flow.rule_flow_sync],
+        'rules': [live.rule_miss_reasons, flow.rule_flow_unsync, flow.rule_flow_admit_sums_unsync, flow.rule_flow_sync,
+                  stale.rule_stale_ts, stale.rule_stale_removal, stale.rule_admit_live],
         'explanation': 'Every miss path of the 6 lookups is explained by key-absent / iterator-exhausted or a true expiry / watermark '
                        'comparison on that entry.',
         'decides': 'lookups hide an existing entry only for expiry or invalidation',
